@@ -7,6 +7,7 @@ import (
 	"go/types"
 	"os"
 	"strings"
+	"sync"
 
 	"golang.org/x/tools/go/ssa"
 )
@@ -28,8 +29,11 @@ type Engine struct {
 	LazySliceMax int
 	Known        map[string]bool // known finding ids (open)
 	Debug        bool
+	Prop         string
+	harnessFn    map[*ssa.Function]bool
 	moduleInits  []*ssa.Function
 	srcLines     map[string][]string
+	hmu          sync.Mutex
 	Fset         *token.FileSet
 }
 
@@ -118,10 +122,27 @@ type Exec struct {
 	certs     map[string]*certInfo
 	strAttrs  map[string]map[string]bool // symbol name -> flags (notb64, notxml, notflate ...)
 	reqs      map[*Cell]*reqInfo
-	urlInfos  map[*Cell]*reqInfo
+	urlInfos  map[*Cell]*urlInfo
 	nowCalls  int
 	idSeq     int
 	uuids     []*Term
+
+	renders      map[string]*renderInfo
+	renderSeq    int
+	tokenOrder   []string
+	materialised []*Term
+	unreplayable []string
+	clocks       []*Term
+	timeSyms     []*timeStr
+	parsedURLs   []string
+	fwdSeq       int
+	sigCtx       map[*Cell]*sigCtxInfo
+	privKeys     map[*Cell]*Term
+	curFn        *ssa.Function
+	pcSyms       map[string]bool
+	pcScanned    int
+	pcKeys       map[string]bool
+	pcKeyed      int
 }
 
 type findingRegion struct {
@@ -136,7 +157,8 @@ func (e *Engine) NewExec(solver *Portfolio, decisions []int8) *Exec {
 		covers: map[string]bool{}, bounds: map[string]int{}, funcsSeen: map[string]int{},
 		contracts: map[string]bool{}, xmlTokens: map[string]*xmlToken{},
 		timeStrs: map[string]*timeStr{}, certs: map[string]*certInfo{},
-		strAttrs: map[string]map[string]bool{}, reqs: map[*Cell]*reqInfo{}, urlInfos: map[*Cell]*reqInfo{},
+		strAttrs: map[string]map[string]bool{}, reqs: map[*Cell]*reqInfo{}, urlInfos: map[*Cell]*urlInfo{},
+		pcSyms: map[string]bool{}, pcKeys: map[string]bool{}, renders: map[string]*renderInfo{}, sigCtx: map[*Cell]*sigCtxInfo{}, privKeys: map[*Cell]*Term{},
 	}
 }
 
@@ -187,6 +209,13 @@ func (x *Exec) Branch(c *Term) bool {
 	if c.IsConst() {
 		return c.B
 	}
+	// decided syntactically by the path condition
+	if x.pcHas(c) {
+		return true
+	}
+	if x.pcHas(Not(c)) {
+		return false
+	}
 	x.branches++
 	if x.pos < len(x.decisions) {
 		d := x.decisions[x.pos]
@@ -198,8 +227,28 @@ func (x *Exec) Branch(c *Term) bool {
 		x.pc = append(x.pc, Not(c))
 		return false
 	}
+	// a literal over a boolean symbol the path condition does not mention is free
+	if lit := c; true {
+		if lit.Op == "not" {
+			lit = lit.Args[0]
+		}
+		if lit.Op == "sym" && lit.Sort == SBool && !x.pcMentions(lit.S) {
+			alt := make([]int8, len(x.decisions)+1)
+			copy(alt, x.decisions)
+			alt[len(x.decisions)] = 0
+			x.newWork = append(x.newWork, alt)
+			x.decisions = append(x.decisions, 1)
+			x.pos++
+			x.pc = append(x.pc, c)
+			return true
+		}
+	}
 	rt, _ := x.check(c)
-	rf, _ := x.check(Not(c))
+	rf := Sat
+	if rt != Unsat {
+		// the path condition is satisfiable, so if c is impossible its negation is possible
+		rf, _ = x.check(Not(c))
+	}
 	tOK := rt != Unsat
 	fOK := rf != Unsat
 	if rt == Unknown {
@@ -264,8 +313,12 @@ func (x *Exec) store(p *Pointer, v Value) {
 	if p.IsNil() {
 		panic(&guestPanic{msg: "nil pointer dereference (store)"})
 	}
-	if p.Cell.Epoch < x.epoch && x.epoch > 0 {
-		x.sharedWrites = append(x.sharedWrites, fmt.Sprintf("write to provider-lifetime object %s (cell %d, epoch %d)", p.Cell.Name, p.Cell.ID, p.Cell.Epoch))
+	if p.Cell.Epoch < x.epoch && x.epoch > 0 && !x.E.isHarnessFn(x.curFn) {
+		where := "?"
+		if x.curFn != nil {
+			where = x.curFn.String()
+		}
+		x.sharedWrites = append(x.sharedWrites, fmt.Sprintf("write to provider-lifetime object %q in %s", p.Cell.Name, where))
 	}
 	p.Cell.V = update(p.Cell.V, p.Path, v)
 }
@@ -276,6 +329,18 @@ func (x *Exec) global(g *ssa.Global) *Cell {
 	}
 	t := g.Type().(*types.Pointer).Elem()
 	c := &Cell{V: zeroValue(t), Typ: t, Epoch: -1, Name: g.String()}
+	if g.Pkg != nil && g.Pkg.Pkg.Path() == "encoding/base64" {
+		switch g.Name() {
+		case "StdEncoding":
+			c.V = &Native{Kind: "b64encoding", Data: "b64"}
+		case "URLEncoding":
+			c.V = &Native{Kind: "b64encoding", Data: "b64url"}
+		case "RawStdEncoding":
+			c.V = &Native{Kind: "b64encoding", Data: "b64raw"}
+		case "RawURLEncoding":
+			c.V = &Native{Kind: "b64encoding", Data: "b64rawurl"}
+		}
+	}
 	x.globals[g] = c
 	return c
 }
@@ -284,6 +349,10 @@ func (x *Exec) global(g *ssa.Global) *Cell {
 func (x *Exec) force(v Value) Value {
 	l, ok := v.(*LazyRef)
 	if !ok {
+		switch v.(type) {
+		case *formVals, *headerVals:
+			return x.forceVals(v)
+		}
 		return v
 	}
 	if l.Resolved != nil {
@@ -514,6 +583,9 @@ func (x *Exec) CallFunction(fn *ssa.Function, args []Value, env []Value, caller 
 		panic(abortf("call of function without body: %s", fn))
 	}
 	x.funcsSeen[fn.String()] = countInstrs(fn)
+	savedFn := x.curFn
+	x.curFn = fn
+	defer func() { x.curFn = savedFn }()
 	fr := &frame{fn: fn, locals: make(map[ssa.Value]Value, 32), env: env, visits: map[*ssa.BasicBlock]int{}, caller: caller, site: site}
 	for i, p := range fn.Params {
 		fr.locals[p] = args[i]
@@ -1070,6 +1142,28 @@ func (x *Exec) keyEq(a, b Value) *Term {
 
 // mapLookup forks on key equality and on symbolic presence.
 func (x *Exec) mapLookup(m *MapV, key Value, et types.Type) (Value, *Term) {
+	if m.M != nil && m.M.Lazy != nil {
+		kt, ok := key.(*Term)
+		if !ok || !kt.IsConst() {
+			panic(abortf("lookup in a request map with a symbolic key"))
+		}
+		var ent *MapEntry
+		for _, e := range m.M.Entries {
+			if k, ok := e.Key.(*Term); ok && k.IsConst() && k.S == kt.S {
+				ent = e
+			}
+		}
+		if ent == nil {
+			ent = x.lazyEntry(m.M, kt.S)
+		}
+		if x.Branch(ent.Present) {
+			return ent.Val, TrueT
+		}
+		if et == nil {
+			return &SliceV{}, FalseT
+		}
+		return zeroValue(et), FalseT
+	}
 	if m.M != nil {
 		if m.M.Kind == "header" {
 			key = x.canonHeader(key)
@@ -1079,9 +1173,15 @@ func (x *Exec) mapLookup(m *MapV, key Value, et types.Type) (Value, *Term) {
 				if x.Branch(e.Present) {
 					return e.Val, TrueT
 				}
+				if et == nil {
+					return &SliceV{}, FalseT
+				}
 				return zeroValue(et), FalseT
 			}
 		}
+	}
+	if et == nil {
+		return &SliceV{}, FalseT
 	}
 	return zeroValue(et), FalseT
 }
@@ -1392,6 +1492,12 @@ func (e *Engine) isReal(fn *ssa.Function) bool {
 }
 
 func (x *Exec) invoke(fr *frame, recv Value, method string, pkg *types.Package, args []Value, site ssa.Instruction) Value {
+	if n, isN := recv.(*Native); isN {
+		recv = &IfaceV{T: nativeType, V: n}
+	}
+	if p, isP := recv.(*Pointer); isP && !p.IsNil() && p.Cell.Typ != nil && len(p.Path) == 0 {
+		recv = &IfaceV{T: types.NewPointer(p.Cell.Typ), V: p}
+	}
 	iv, ok := recv.(*IfaceV)
 	if !ok {
 		panic(abortf("invoke %s on %T", method, recv))
@@ -1634,4 +1740,64 @@ func (x *Exec) runInitFn(fn *ssa.Function) {
 		}
 	}()
 	x.CallFunction(fn, nil, nil, nil, nil)
+}
+
+// isHarnessFn: is fn defined in a harness source file (zz_verif_*.go)?
+func (e *Engine) isHarnessFn(fn *ssa.Function) bool {
+	if fn == nil {
+		return true
+	}
+	e.hmu.Lock()
+	defer e.hmu.Unlock()
+	if e.harnessFn == nil {
+		e.harnessFn = map[*ssa.Function]bool{}
+	}
+	if v, ok := e.harnessFn[fn]; ok {
+		return v
+	}
+	f := fn
+	for f.Parent() != nil {
+		f = f.Parent()
+	}
+	v := false
+	if f.Pos().IsValid() {
+		v = strings.Contains(e.Fset.Position(f.Pos()).Filename, "zz_verif")
+	} else if f.Synthetic != "" && strings.Contains(f.String(), ".vrt") {
+		v = true
+	}
+	e.harnessFn[fn] = v
+	return v
+}
+
+// pcMentions: does any term of the path condition mention symbol name?
+func (x *Exec) pcMentions(name string) bool {
+	for x.pcScanned < len(x.pc) {
+		collectSyms(x.pc[x.pcScanned], x.pcSyms)
+		x.pcScanned++
+	}
+	return x.pcSyms[name]
+}
+
+func collectSyms(t *Term, into map[string]bool) {
+	if t.Op == "sym" {
+		into[t.S] = true
+		return
+	}
+	for _, a := range t.Args {
+		collectSyms(a, into)
+	}
+}
+
+func (x *Exec) pcHas(c *Term) bool {
+	for x.pcKeyed < len(x.pc) {
+		t := x.pc[x.pcKeyed]
+		x.pcKeys[t.Key()] = true
+		if t.Op == "and" {
+			for _, a := range t.Args {
+				x.pcKeys[a.Key()] = true
+			}
+		}
+		x.pcKeyed++
+	}
+	return x.pcKeys[c.Key()]
 }
